@@ -10,3 +10,4 @@ import XPathV.Theorems.C01
 #print axioms XPathV.Theorems.C01.preceding_walk
 #print axioms XPathV.Theorems.C01.C01_main
 #print axioms XPathV.Theorems.C01.C01_single_step
+#print axioms XPathV.Theorems.C01.C01_from_text
